@@ -159,6 +159,26 @@ def obligations(tier, seed):
     obs.append(Ob("C26/change-target/gauss", chg, (KEY, F(0.5), F(1.3), F(-0.4), F(0.9)), assume=pos(1, 4), timeout_s=30,
                   note="same key: ChangeTarget keeps the particle's latent, installs the new observation, weight == old weight + log p_new(mu,obs') - log p_old(mu,obs)"))
 
+    # the new target drops one of the old target's observations: that address becomes a latent again (re-proposed from the
+    # prior by the new target's importance), the kept latent is carried over, and the weight is proper for the NEW target
+    @genjax.gen
+    def three(s):
+        x = genjax.normal(0.0, 2.0) @ "x"
+        _ = genjax.normal(x, s) @ "y"
+        _ = genjax.normal(x, 1.0) @ "z"
+
+    def chg_drop(key, s, oy, oz):
+        t1 = Target(three, (s,), C["y"].set(oy) | C["z"].set(oz))
+        t2 = Target(three, (s,), C["y"].set(oy))
+        pc1 = Importance(t1).run_smc(key)
+        pc2 = ChangeTarget(Importance(t1), t2).run_smc(key)
+        x1 = pc1.get_particles().get_choices()["x"][0]
+        ch2 = pc2.get_particles().get_choices()
+        return (ch2["x"][0], ch2["y"][0], pc2.get_log_weights()[0], pc1.get_log_weights()[0]), (x1, oy, lpn(oy, x1, s), lpn(oy, x1, s) + lpn(oz, x1, 1.0))
+
+    obs.append(Ob("C26/change-target-drops-observation/three", chg_drop, (KEY, F(0.5), F(1.3), F(-0.4)), assume=pos(1), timeout_s=30,
+                  note="new target constrains fewer addresses: the carried latent is kept, the dropped observation is no longer part of the weight: log weight == log p(y | x) for the new target (old weight was log p(y,z | x))"))
+
     # ---- 5. the SP interface of an SMC algorithm
     def rw(key, s, o, a, b):
         t = Target(gauss, (s,), C["v"].set(o))
